@@ -104,7 +104,11 @@ def snapshot(p, calls=True):
                 'crossline': [codec.bits(r.read_crossline(x)).tobytes() for x in sorted({0, n[1] - 1})],
                 'zslice': [codec.bits(r.read_zslice(z)).tobytes() for z in sorted({0, n[2] - 1})],
                 'trace': [codec.bits(r.get_trace(t)).tobytes() for t in sorted({0, tc // 2, tc - 1})],
-                'subvolume': [codec.bits(r.read_subvolume(0, max(1, n[0] - 1), 0, n[1], 1 if n[2] > 1 else 0, n[2])).tobytes()],
+                'subvolume': [codec.bits(r.read_subvolume(0, max(1, n[0] - 1), 0, n[1], 1 if n[2] > 1 else 0, n[2])).tobytes()] +
+                             # boxes that start off a 64-line boundary and cross it (the re-blocked layout has 64 x 64 blocks), each way
+                             [codec.bits(r.read_subvolume(a, b, c, dd, 0, min(n[2], 5))).tobytes()
+                              for a, b, c, dd in ((min(60, n[0] - 1), min(70, n[0]), 0, min(3, n[1])), (0, min(3, n[0]), min(59, n[1] - 1), min(67, n[1])),
+                                                  (min(63, n[0] - 1), min(65, n[0]), min(63, n[1] - 1), min(65, n[1])))],
                 'diagonal': [codec.bits(np.asarray(r.read_correlated_diagonal(0), dtype=np.float32)).tobytes()]}
     return out
 
